@@ -14,6 +14,8 @@ VALUES = {
     'int': 1, 'float': 2.5, 'nan': float('nan'), 'inf': float('inf'), 'uni': 'é x \U0001F600',
     'ctl': 'ctl\x01\n"q"', 'true': True, 'none': None, 'nest': [1, [2, 'x']], 'dict': {'n': {'m': 1}},
     'npint': np.int16(3), 'npfloat': np.float32(1.5), 'nparr': np.arange(3), 'bytes': b'bytes',
+    # integers a double cannot hold exactly: they must be stored as exact native numbers
+    'npbig': np.int64(2 ** 53 + 1), 'npubig': np.uint64(2 ** 64 - 1), 'pybig': 2 ** 63 + 12345,
 }
 SMALL = ['int', 'uni', 'nest']
 MISSING = object()
